@@ -417,6 +417,20 @@ impl Model {
     /// m.gcc(&vars, &[1, 2, 3], &[count1, count2, count3]);
     /// ```
     pub fn gcc(&mut self, vars: &[VarId], values: &[i32], counts: &[VarId]) -> Vec<PropId> {
+        // One count variable per value; report a length mismatch from the solving call instead of
+        // silently constraining only the first min(len) values
+        if values.len() != counts.len() {
+            self.constraint_validation_errors.push(crate::core::error::SolverError::InvalidConstraint {
+                message: format!(
+                    "Global cardinality constraint validation error: {} values but {} count variables",
+                    values.len(),
+                    counts.len()
+                ),
+                constraint_name: Some("gcc".to_string()),
+                variables: None,
+            });
+        }
+
         let mut prop_ids = Vec::with_capacity(values.len());
         
         for (&value, &count_var) in values.iter().zip(counts.iter()) {
